@@ -69,6 +69,11 @@ OVERLAP += [('#program always.\n{ p; x }.\nq :- not &del { * p .>? x }.', '#prog
             ('#program always.\n{ p; x }.\nq :- not &del { p ;; ? x .>? p }.', '#program always.\n{ r; x; p }.\nw :- not not &del { p ;; ? x .>* r }.')]
 
 
+# programs whose formulas wait for later states when a run stops early
+LATE = ['#program always.\n{ p }.\n#program initial.\n:- not &tel { 2 > p }.', '#program always.\n{ p }.\n:- not &tel { > p | >: > p }.', '#program always.\n{ p }.\nq :- not not &tel { >? p }.\n:- not &tel { 2 >: q }.',
+        '#program always.\n{ p }.\n&tel { 2 > q } :- p.\n:- not &tel { >* (q | p) }.', '#program always.\n{ p; q }.\n#program initial.\n:- not &del { &true ;; &true .>? p }.\n#program dynamic.\n:- &del { * q .>* p }.']
+
+
 def canon(r):
     if r.get('status') != 'ok':
         return ('error', r.get('type'), r.get('msg'))
@@ -153,13 +158,18 @@ def run(ctx):
             cex.append({'key': 'c14:overlap:%d:%s' % (at, a.replace('\n', ' ')), 'what': 'two overlapping runs (the second started from the model callback of the first at step %d): %s differs from a fresh process' % (
                 at, 'the outer run' if canon(ra) != fresh[a] else 'the inner run'), 'input': {'ops': rq['ops'], 'threads': 1, 'kind': 'overlap', 'H': H, 'a': a, 'b': b}})
     # the same pairs one after the other in one process (A, B, A again): nothing an earlier run built may be reused by a later one
-    sq_reqs = [{'cmd': 'history', 'ops': [['solve', [a], H], ['solve', [b], H], ['solve', [a], H]], 'threads': 1} for a, b in OVERLAP + [(b, a) for a, b in OVERLAP]]
+    # (also after runs that stopped early, while formulas were still waiting for later states)
+    pairs = OVERLAP + [(b, a) for a, b in OVERLAP] + [(a, a) for a in LATE]
+    sq_reqs = [{'cmd': 'history', 'ops': [['solve', [a], H], ['solve', [b], H], ['solve', [a], H]], 'threads': 1} for a, b in pairs]
+    sq_reqs += [{'cmd': 'history', 'ops': [['solve', [a], 0], ['solve', [b], 1], ['solve', [a], H], ['solve', [b], H], ['solve', [a], 1], ['solve', [b], 0], ['solve', [b], H]], 'threads': 1} for a, b in pairs]
+    short = sorted({(x, h) for ab in pairs for x in ab for h in (0, 1, H)})
+    fresh = dict(zip(short, [canon(x) for x in pool.run([{'cmd': 'solve', 'texts': [t], 'imax': h + 1, 'istop': 'UNKNOWN'} for t, h in short], timeout=60)]))
     for rq, r in zip(sq_reqs, ctx.impl(hashseed=seeds[0]).run(sq_reqs, timeout=240)):
         if r.get('status') != 'ok':
             cex.append({'key': 'c14:history-run', 'what': 'history run fails: %s' % json.dumps({k: r.get(k) for k in ('status', 'type', 'msg')}), 'input': {'ops': rq['ops'], 'threads': 1, 'kind': 'history'}})
             continue
         for op, x in zip(rq['ops'], r['results']):
-            if canon(x) != fresh[op[1][0]]:
+            if canon(x) != fresh[(op[1][0], op[2])]:
                 cex.append({'key': 'c14:sequence:' + ' / '.join(o[1][0] for o in rq['ops'][:2]).replace('\n', ' '), 'what': 'run of %r after other runs in the same process differs from a fresh process' % op[1][0],
                             'input': {'ops': rq['ops'], 'threads': 1, 'kind': 'history', 'H': H}})
                 break
